@@ -66,6 +66,35 @@ pub fn exec(op: &str, a: &[Vec<u8>]) -> Out {
             o.extend_from_slice(VerifyingKey::from(&ExpandedSecretKey::from(&seed)).as_bytes());
             o.extend_from_slice(VerifyingKey::from(&sk).as_bytes());
             o.push(sk.verifying_key().is_weak() as u8);
+            // the remaining accessors / conversions / comparisons of the two key types: each flag must be 1
+            let vk = sk.verifying_key();
+            let mut other_seed = seed;
+            other_seed[0] ^= 1;
+            let other = SigningKey::from_bytes(&other_seed);
+            let hash_of = |k: &VerifyingKey| {
+                use std::hash::{Hash, Hasher};
+                let mut h = std::collections::hash_map::DefaultHasher::new();
+                k.hash(&mut h);
+                h.finish()
+            };
+            let vk2 = need!(VerifyingKey::from_bytes(&vk.to_bytes()).ok());
+            let as_point = curve25519_dalek::edwards::EdwardsPoint::from(vk);
+            let flags = [
+                sk.as_bytes() == &seed,
+                <SigningKey as AsRef<VerifyingKey>>::as_ref(&sk) == &vk,
+                signature::Keypair::verifying_key(&sk) == vk,
+                <VerifyingKey as AsRef<[u8]>>::as_ref(&vk) == &vk.as_bytes()[..],
+                hash_of(&vk) == hash_of(&vk2) && vk == vk2,
+                vk != other.verifying_key(),
+                sk != other && !bool::from(subtle::ConstantTimeEq::ct_eq(&sk, &other)),
+                bool::from(subtle::ConstantTimeEq::ct_eq(&sk, &sk2)) && sk.clone() == sk,
+                as_point == vk.to_edwards() && as_point.compress().as_bytes() == vk.as_bytes(),
+                VerifyingKey::from(as_point).as_bytes() == vk.as_bytes() && VerifyingKey::from(as_point) == vk,
+            ];
+            for f in flags {
+                o.push(f as u8);
+            }
+            o.extend_from_slice(VerifyingKey::default().as_bytes());
             Out::Ok(o)
         }
         "sig.generate" => {
@@ -96,6 +125,12 @@ pub fn exec(op: &str, a: &[Vec<u8>]) -> Out {
             o.push(sk.verify(&a[1], &s1).is_ok() as u8);
             o.push(sk.verify_strict(&a[1], &s1).is_ok() as u8);
             o.push(Verifier::verify(&sk, &a[1], &s1).is_ok() as u8);
+            // ... and refused by the signing key's own verifiers under another message
+            let mut m2 = a[1].clone();
+            m2.push(1);
+            o.push(sk.verify(&m2, &s1).is_ok() as u8);
+            o.push(sk.verify_strict(&m2, &s1).is_ok() as u8);
+            o.push(Verifier::verify(&sk, &m2, &s1).is_ok() as u8);
             Out::Ok(o)
         }
         "sig.sign_ph" => {
